@@ -12,6 +12,41 @@ def proj_list(xs):
     return "[]int64[" + ",".join("int64:%d" % x for x in xs) + "]"
 
 
+def proj_val(x):
+    """a (decoded) model value in the harness's projection (harness/c19.go projAny)"""
+    tag = x[0]
+    if tag == b"nil":
+        return "nil"
+    if tag == b"b":
+        return "bool:" + x[1].decode()
+    if tag == b"i":
+        return "int64:" + x[1].decode()
+    if tag == b"f":
+        return "float64:%x" % int(x[1])
+    if tag == b"s":
+        return "string:" + x[1].hex()
+    return "?" + repr(x)
+
+
+def proj_model(x):
+    tag = x[0]
+    if tag in (b"i", b"f", b"s"):
+        return proj_val(x)
+    if tag == b"li":
+        return "[]int64[" + ",".join("int64:" + e.decode() for e in x[1:]) + "]"
+    if tag == b"lf":
+        return "[]float64[" + ",".join("float64:%x" % int(e) for e in x[1:]) + "]"
+    if tag == b"lb":
+        return "[]bool[" + ",".join("bool:" + e.decode() for e in x[1:]) + "]"
+    if tag == b"vals":
+        return "[]interface {}[" + ",".join(sorted(proj_val(e) for e in x[1:])) + "]"
+    if tag == b"error":
+        return "error"
+    if tag == b"miss":
+        return "miss " + x[1].decode("latin-1")
+    return "?" + repr(x)
+
+
 def entry_ok(e):
     return e["key"] == e["ident"] and (e["qual"] == "" or e["pkg"] == e["path"])
 
@@ -49,9 +84,27 @@ def run(tier, seed, replay=None):
             else:
                 m = line
             c["model"] = m
+        # model of the conversion builtins, len and keys on the same values (entry c19b)
+        conv = [c for c in cases if c.get("model_in")]
+        with open(os.path.join(scratch, "conv.sx"), "w") as f:
+            for c in conv:
+                f.write("c19b " + c["model_in"] + "\n")
+        conv_mism, conv_miss = 0, 0
+        for c, line in zip(conv, common.run_driver(driver, os.path.join(scratch, "conv.sx")) if conv else []):
+            c["model"] = proj_model(common.parse_sexp(line))
+            if c["model"].startswith("miss"):
+                conv_miss += 1
+            elif c["model"] != c["got"]:
+                conv_mism += 1
+                if len(res.violations) < 10:
+                    res.violation({"property": PID, "kind": "a core builtin differs from its model (coq/Core/Builtins.v, theorems of Properties/C19.v): " + c["why"],
+                                   "source": c["src"], "implementation": c["got"][:600], "model": c["model"][:600], "model_input": c["model_in"][:600],
+                                   "how_to_replay": "core.Import(env.NewEnv()); vm.Execute(e, nil, source)"})
         # 1. implementation against the native Go computation (the property's own oracle)
         nbad = 0
         for c in cases:
+            if c.get("model_in"):
+                continue
             if c["got"] != c["want"]:
                 nbad += 1
                 if len(res.violations) < 10:
@@ -111,8 +164,15 @@ def run(tier, seed, replay=None):
             "rule": "range: every triple over 18 boundary values (0, +-1, small, +-2^62, the int64 limits and neighbours) whose exact length is "
                     "<= 3000 (quick: a 12% sample), plus the short forms and misuse; run in child processes with a 3 s / 1 GiB watchdog; "
                     "compared with the native progression and with the extracted Coq model; conversions, len, typeOf, kindOf, typed slices "
-                    "over a 25-value universe compared with native Go; tables: all entries, statically and in the running binary",
+                    "over a 45-value universe compared with native Go; toInt/toFloat/len/keys/typeOf/kindOf on 80 pooled scalars and the typed-slice "
+                    "forms, keys and the rest on random values (spelled random int64s, numerals around the int64 limits, decorated numerals, "
+                    "nested lists, maps with distinct keys) compared with the extracted model of Core/Builtins.v (entry c19b); tables: all entries, statically and in the running binary",
             "case_kinds": kinds, "range_cases": len(ranged), "range_model_mismatches": model_mism, "builtin_mismatches": nbad,
+            "conversion_model_cases": len(conv), "conversion_model_mismatches": conv_mism, "conversion_oracle_misses": conv_miss,
+            "conversion_ops": {op: sum(1 for c in conv if c["src"].startswith(op + "(")) for op in
+                               ("toInt", "toFloat", "toIntSlice", "toFloatSlice", "toBoolSlice", "len", "keys", "typeOf", "kindOf")},
+            "conversion_results": {k: sum(1 for c in conv if c["got"].startswith(k + ":") or c["got"].startswith(k + "[") or c["got"] == k) for k in
+                                   ("int64", "float64", "string", "[]int64", "[]float64", "[]bool", "[]interface {}", "error")},
             "table_entries": len(meta["entries"]), "table_bad_entries": len(bad_entries), "table_dynamic_bad": len(dyn_bad),
             "samples": [{"src": c["src"], "got": c["got"][:100]} for c in cases[:3]], "make_ok": ok_make,
         }
